@@ -185,6 +185,18 @@ class SchemaGen:
 		self.emit(f'enum {name} : {self.rng.choice(UNSIGNED[:3])}', f'\tFIRST = {values[0]}', f'\tSECOND = {values[1]}')
 		return name, [('FIRST', values[0]), ('SECOND', values[1])]
 
+	def discriminant_name(self):
+		"""Name of the discriminant of a conditional struct: `selector`, or one of the names the generator mangles
+		(`type` / `property` are stored and exposed as `type_` / `property_`; conditions must refer to the mangled name)."""
+		if self.variant is None:
+			mangled = self.rng.random() < 0.4
+		else:
+			mangled = 1 == (self.variant // 4) % 2
+		if not mangled:
+			return 'selector'
+		self.features.add('discriminant-mangled-name')
+		return self.rng.choice(['type', 'property'])
+
 	def conditional_struct(self):
 		name = self.fresh('Cond')
 		shape = self.rng.randrange(4) if self.variant is None else self.variant % 4
@@ -216,13 +228,14 @@ class SchemaGen:
 				enum_name, members, _ = self.rng.choice(plain)
 			else:
 				enum_name, members = self.two_member_enum()
-			lines = [f'struct {name}', f'\tselector = {enum_name}']
+			selector = self.discriminant_name()
+			lines = [f'struct {name}', f'\t{selector} = {enum_name}']
 			for index, (member, _) in enumerate(members[:3]):
 				operation = 'equals' if index or self.rng.random() < 0.7 else 'not equals'
 				# arms are of named types, as in the shipped schemas: for a member of builtin integer type the generator tests the
 				# member's own truthiness (`if self.arm:`), so a zero value would vanish from the encoding
 				arm_type = self.rng.choice([name for name, _ in self.int_aliases + self.byte_aliases] + [name for name, _, _ in self.enums])
-				lines.append(f'\tarm{index} = {arm_type} if {member} {operation} selector')
+				lines.append(f'\tarm{index} = {arm_type} if {member} {operation} {selector}')
 			self.features.add('conditional-after')
 		else:
 			# union placed before its discriminant: exhaustive arms of equal size, as in namespace registration
@@ -231,11 +244,12 @@ class SchemaGen:
 			alias_b = self.fresh('Wide')
 			self.emit(f'using {alias_a} = uint64')
 			self.emit(f'using {alias_b} = uint64')
+			selector = self.discriminant_name()
 			lines = [f'struct {name}']
-			lines.append(f'\tarm0 = {alias_a} if {members[0][0]} equals selector')
-			lines.append(f'\tarm1 = {alias_b} if {members[1][0]} equals selector')
+			lines.append(f'\tarm0 = {alias_a} if {members[0][0]} equals {selector}')
+			lines.append(f'\tarm1 = {alias_b} if {members[1][0]} equals {selector}')
 			lines.append(f'\tmiddle = {self.rng.choice(INT_TYPES)}')
-			lines.append(f'\tselector = {enum_name}')
+			lines.append(f'\t{selector} = {enum_name}')
 			self.features.add('conditional-before')
 		lines.append(f'\ttrailer = {self.rng.choice(INT_TYPES)}')
 		self.emit(*lines)
